@@ -26,7 +26,8 @@ Print Assumptions decisions_same_shape.
 (* 2. Meaning.  For every site that the table ties to a condition c of the model (41 of 59;
       the others are listed with the reason why they lie outside the model): the Go source
       has a condition at that position of that function, and FOR ALL environments m -- every
-      status, event, policy, boolean, every integer (no window), every string -- the
+      status, event, policy, boolean, every integer (no window; [env_wf]: only the values of
+      Go's builtin len are taken to be non-negative), every string -- the
       interpreter evaluates the extracted expression, and to exactly c m.  [deval] has no
       default: an ill-typed expression, an unknown constant or a fragment the translator
       could not read ([DUnknown]) evaluates to None and fails this. *)
@@ -35,7 +36,7 @@ Theorem decision_site_agrees :
     nth_error (sites_of sites f) n = Some (Modelled lbl c) ->
     exists (kind : string) (g : dexp),
       nth_error (sites_of decisions f) n = Some (kind, g) /\
-      forall m : menv, deval m g = Some (VB (c m)).
+      forall m : menv, env_wf m -> deval m g = Some (VB (c m)).
 Proof. exact decision_site_agrees_lemma. Qed.
 Print Assumptions decision_site_agrees.
 
@@ -139,22 +140,22 @@ Print Assumptions decisions_reject_widened.
 
 (* `len(h) <= maximum` (removeLeastRecent) off by one *)
 Example decisions_reject_off_by_one :
-  exists m, deval m (DLt (DVar TN "History.len") (DVar TN "arg2")) <> Some (VB (c_rlr_fits m)).
+  exists m, deval m (DLt (DVar TN "len(History)") (DVar TN "arg2")) <> Some (VB (c_rlr_fits m)).
 Proof. exact rejects_off_by_one_lemma. Qed.
 Print Assumptions decisions_reject_off_by_one.
 
 Example decisions_reject_unknown :
-  forall c txt, ~ (forall m : menv, deval m (DUnknown txt) = Some (VB (c m))).
+  forall c txt, ~ (forall m : menv, env_wf m -> deval m (DUnknown txt) = Some (VB (c m))).
 Proof. intros c txt. exact (rejects_unknown_lemma c txt). Qed.
 Print Assumptions decisions_reject_unknown.
 
 (* IsPending as a switch with the cases in another order; `len(h) <= maximum` as
    `!(maximum < len(h))`: both accepted (the second for all integers) *)
 Example decisions_accept_rewritten :
-  (forall m : menv,
+  (forall m : menv, env_wf m ->
      deval m (DIf (DIn (DVar TS "recv") [DStatus "pending-rollback"; DStatus "pending-install"; DStatus "pending-upgrade"])
                   (DBool true) (DBool false)) = Some (VB (c_is_pending m))) /\
-  (forall m : menv,
-     deval m (DNot (DLt (DVar TN "arg2") (DVar TN "History.len"))) = Some (VB (c_rlr_fits m))).
+  (forall m : menv, env_wf m ->
+     deval m (DNot (DLt (DVar TN "arg2") (DVar TN "len(History)"))) = Some (VB (c_rlr_fits m))).
 Proof. exact (conj accepts_switch_lemma accepts_de_morgan_lemma). Qed.
 Print Assumptions decisions_accept_rewritten.
